@@ -230,7 +230,7 @@ package app
 //@   ensures atmost: stops() <= old(stops()) + 1 && stops() >= old(stops())
 //@   ensures kill-iff-failed: stops() == old(stops()) + 1 <==> lastRunFailed()
 //@   ensures kill: stops() == old(stops()) + 1 ==> stopSig(old(stops())) == 9
-//@   assigns runs(), ranEnv(), ranDir(), lastRunFailed(), lastProcEnv(), stops(), stopSig(stops()), stopParentOnly(stops()), ctxCount(), lastTimeout(), slept(), sends(), cancelCalls[*]
+//@   assigns runs(), ranEnv(), ranDir(), lastRunFailed(), lastProcEnv(), lastEnviron(), stops(), stopSig(stops()), stopParentOnly(stops()), ctxCount(), lastTimeout(), slept(), sends(), cancelCalls[*]
 
 //@ func (p *Process) stopProcess
 //@   requires procWF(p) && unlocked(p)
@@ -284,7 +284,7 @@ package app
 //@   ensures env: cmdEnv(p.command) == lastProcEnv() && cmdDir(p.command) == p.procConf.WorkingDir
 //@   ensures pgrp: !attachedIo(p) ==> pgrpSet(p.command)
 //@   ensures streams: !attachedIo(p) ==> p.stdOutDone != nil && (!p.procConf.IsTty ==> p.stdErrDone != nil)
-//@   assigns p.command, p.stdOutDone, p.stdErrDone, p.stdin, starts(), startAfterWait(starts()), cmdEnv[*], cmdDir[*], pgrpSet[*], lastProcEnv(), spawned[*]
+//@   assigns p.command, p.stdOutDone, p.stdErrDone, p.stdin, starts(), startAfterWait(starts()), cmdEnv[*], cmdDir[*], pgrpSet[*], lastProcEnv(), lastEnviron(), spawned[*]
 
 //@ func (p *Process) getProcessStarter
 //@   ensures isclosure(result, "(*app.Process).getProcessStarter$1") && captured(result, "(*app.Process).getProcessStarter$1", "p") == p
@@ -301,7 +301,7 @@ package app
 //@   ensures env: cmdEnv(p.command) == lastProcEnv() && cmdDir(p.command) == p.procConf.WorkingDir
 //@   ensures streams: !attachedIo(p) ==> p.stdOutDone != nil && (!p.procConf.IsTty ==> p.stdErrDone != nil)
 //@   ensures !held(p.stateMtx) && !held(p.confMtx)
-//@   assigns p.procState.Status, p.procState.ExitCode, p.procState.Health, p.command, p.stdOutDone, p.stdErrDone, p.stdin, starts(), startAfterWait(starts()), cmdEnv[*], cmdDir[*], pgrpSet[*], lastProcEnv(), spawned[*]
+//@   assigns p.procState.Status, p.procState.ExitCode, p.procState.Health, p.command, p.stdOutDone, p.stdErrDone, p.stdin, starts(), startAfterWait(starts()), cmdEnv[*], cmdDir[*], pgrpSet[*], lastProcEnv(), lastEnviron(), spawned[*]
 
 //@ func (p *Process) waitForStdOutErr
 //@   param cancel as cancelfunc
